@@ -2,7 +2,7 @@
 from __future__ import annotations
 from dataclasses import dataclass, field
 from typing import Any
-from hio.help import RegDom, RawDom, registerify
+from hio.help import RegDom, RawDom, IceRegDom, registerify
 
 
 @registerify
@@ -36,4 +36,15 @@ class FRaw(RawDom):
     inner: FFlat = field(default_factory=FFlat)
 
 
-CLASSES = dict(flat=FFlat, nested=FNested, deep=FDeep, raw=FRaw)
+@registerify
+@dataclass(frozen=True)
+class FIce(IceRegDom):
+    """a FROZEN data object: its fields cannot be rebound, but a list / dict / nested object it holds can still change in place"""
+    a: Any = None
+    b: int = 0
+    d: list = field(default_factory=list)
+    e: dict = field(default_factory=dict)
+    inner: FFlat = field(default_factory=FFlat)
+
+
+CLASSES = dict(flat=FFlat, nested=FNested, deep=FDeep, raw=FRaw, ice=FIce)
